@@ -21,6 +21,7 @@ import (
 	"sync/atomic"
 	"testing"
 	"testing/synctest"
+	"time"
 
 	"github.com/modelcontextprotocol/go-sdk/mcp"
 	"github.com/modelcontextprotocol/go-sdk/verif/memhttp"
@@ -31,7 +32,7 @@ import (
 func TestMain(m *testing.M) { vt.Main(m) }
 
 type Step struct {
-	Kind   string `json:"kind"`        // post note finish cut resume | sget snote scut sresume
+	Kind   string `json:"kind"`        // post note finish cut resume hclose | sget snote scut sresume
 	S      int    `json:"s,omitempty"` // which request stream (mod)
 	I      int    `json:"i,omitempty"` // which previously seen event id (mod) for resume
 	NoWait bool   `json:"nowait,omitempty"`
@@ -53,7 +54,7 @@ func genScript(rt *rapid.T, race bool) Script {
 	n := rapid.IntRange(2, 30).Draw(rt, "n")
 	posts := 0
 	for i := 0; i < n; i++ {
-		kinds := []string{"post", "note", "note", "note", "finish", "cut", "cut", "resume", "resume", "resume", "sget", "snote", "snote", "scut", "sresume", "sresume"}
+		kinds := []string{"post", "note", "note", "note", "finish", "cut", "cut", "hclose", "resume", "resume", "resume", "sget", "snote", "snote", "scut", "sresume", "sresume"}
 		if posts >= 3 {
 			kinds = kinds[1:]
 		}
@@ -66,7 +67,7 @@ func genScript(rt *rapid.T, race bool) Script {
 		}
 		s.Steps = append(s.Steps, st)
 		// the interesting shape, generated on purpose: cut, write while detached, resume
-		if (st.Kind == "cut" || st.Kind == "scut") && (race || rapid.IntRange(0, 2).Draw(rt, "macro") > 0) {
+		if (st.Kind == "cut" || st.Kind == "scut" || st.Kind == "hclose") && (race || rapid.IntRange(0, 2).Draw(rt, "macro") > 0) {
 			w, r := "note", "resume"
 			if st.Kind == "scut" {
 				w, r = "snote", "sresume"
@@ -135,6 +136,9 @@ type exch struct {
 	hasFrom  bool // a Last-Event-ID was presented
 	cut      bool
 	conflict bool
+	// hclosed: the handler closed this exchange itself (CloseSSEStream); like a cut, later messages are
+	// not owed to it.
+	hclosed bool
 }
 
 type streamRec struct {
@@ -150,14 +154,21 @@ type streamRec struct {
 
 func (s *streamRec) attached() *exch {
 	for _, e := range s.exs {
-		if !e.cut && !e.conflict && !e.ex.HandlerDone() {
+		if !e.cut && !e.hclosed && !e.conflict && !e.ex.HandlerDone() {
 			return e
 		}
 	}
 	return nil
 }
 
-type cmd struct{ finish bool }
+type cmd struct {
+	finish bool
+	// closeResume: the handler closes its SSE stream (RequestExtra.CloseSSEStream) and, on the same
+	// goroutine and at once, a client resumes the stream from lastID (a prompt reconnection).
+	closeResume bool
+	lastID      string
+	tag         string
+}
 
 var theT *testing.T
 
@@ -184,12 +195,20 @@ func runInBubble(s Script) (res vt.Result) {
 		}
 		return cmds[k]
 	}
+	var promptResume func(lastID, tag string)
 	server := mcp.NewServer(&mcp.Implementation{Name: "srv", Version: "1"}, nil)
 	mcp.AddTool(server, &mcp.Tool{Name: "emit"}, func(ctx context.Context, req *mcp.CallToolRequest, in emitIn) (*mcp.CallToolResult, any, error) {
 		n := 0
 		for c := range cmdCh(in.K) {
 			if c.finish {
 				break
+			}
+			if c.closeResume {
+				if req.Extra != nil && req.Extra.CloseSSEStream != nil {
+					req.Extra.CloseSSEStream(mcp.CloseSSEStreamArgs{RetryAfter: time.Millisecond})
+				}
+				promptResume(c.lastID, c.tag)
+				continue
 			}
 			n++
 			// written with the request's context: routed to this request's stream
@@ -236,6 +255,24 @@ func runInBubble(s Script) (res vt.Result) {
 			return nil
 		}
 		return exs[before]
+	}
+	// promptResume issues the resuming GET on the caller's goroutine (returns once the response headers are
+	// in or the request failed); the body is drained in the background.
+	promptResume = func(lastID, tag string) {
+		req, _ := http.NewRequestWithContext(memhttp.WithTag(context.Background(), tag), "GET", "http://mcp.example/mcp", nil)
+		req.Header.Set("Accept", "text/event-stream")
+		req.Header.Set("Mcp-Session-Id", sessionID)
+		if s.Version >= "2025-06-18" {
+			req.Header.Set("Mcp-Protocol-Version", s.Version)
+		}
+		req.Header.Set("Last-Event-ID", lastID)
+		resp, err := client.Do(req)
+		if err == nil {
+			go func() {
+				io.Copy(io.Discard, resp.Body)
+				resp.Body.Close()
+			}()
+		}
 	}
 	defer func() {
 		for k := 0; k < 8; k++ {
@@ -349,7 +386,7 @@ func runInBubble(s Script) (res vt.Result) {
 					}
 				}
 				// An exchange that is still attached (or ended by itself) has everything written so far.
-				if st.known && !e.cut {
+				if st.known && !e.cut && !e.hclosed {
 					log := store.log(st.sid)
 					if lastIdx != len(log)-1 {
 						what := "attached"
@@ -366,6 +403,7 @@ func runInBubble(s Script) (res vt.Result) {
 	}
 
 	prevNoWait := false
+	hcloses := 0
 	for i, st := range s.Steps {
 		racing := st.NoWait || prevNoWait // attachment state is not settled: 200 and 409 are both legitimate
 		prevNoWait = st.NoWait
@@ -418,6 +456,44 @@ func runInBubble(s Script) (res vt.Result) {
 				e.ex.Cut(memhttp.ErrCut)
 				desc.WriteString("x")
 			}
+		case "hclose":
+			if len(streams) == 0 {
+				break
+			}
+			sr := streams[st.S%len(streams)]
+			e := sr.attached()
+			if sr.finished || e == nil || e.hasFrom || !sr.known || len(sr.seenIdx) == 0 {
+				break // only the original POST exchange can be closed by its handler, and a client needs an id to resume from
+			}
+			idx := sr.seenIdx[len(sr.seenIdx)-1]
+			hcloses++
+			tag := fmt.Sprintf("hclose-%d", hcloses)
+			e.hclosed = true
+			cmdCh(sr.k) <- cmd{closeResume: true, lastID: fmt.Sprintf("%s_%d", sr.sid, idx), tag: tag}
+			synctest.Wait()
+			var rex *memhttp.Exchange
+			for _, x := range tr.Exchanges() {
+				if x.Tag == tag {
+					rex = x
+				}
+			}
+			if rex == nil {
+				res.Failf("step %d: the prompt resume after CloseSSEStream produced no exchange", i)
+				return finish(res, s, &desc, nt)
+			}
+			ne := &exch{ex: rex, from: idx, hasFrom: true}
+			switch rex.Status() {
+			case 200, 0:
+				res.Class("prompt_resume_accepted")
+			case 409:
+				// the closing exchange had not let go of the stream yet: the client retries later
+				ne.conflict = true
+				res.Class("prompt_resume_conflict")
+			default:
+				res.Failf("step %d: prompt resume of stream %q after CloseSSEStream answered %d: %s", i, sr.sid, rex.Status(), rex.Written())
+			}
+			sr.exs = append(sr.exs, ne)
+			desc.WriteString("H")
 		case "resume":
 			if len(streams) == 0 {
 				break
@@ -593,7 +669,7 @@ func finish(res vt.Result, s Script, desc *strings.Builder, nt bool) vt.Result {
 		res.Class("no_priming")
 	}
 	d := desc.String()
-	for _, c := range []struct{ sub, class string }{{"R", "request_stream_resume"}, {"S", "standalone_resume"}, {"x", "cut"}, {"F", "finished"}} {
+	for _, c := range []struct{ sub, class string }{{"R", "request_stream_resume"}, {"S", "standalone_resume"}, {"x", "cut"}, {"F", "finished"}, {"H", "handler_closed_its_stream"}} {
 		if strings.Contains(d, c.sub) {
 			res.Class(c.class)
 		}
@@ -603,11 +679,23 @@ func finish(res vt.Result, s Script, desc *strings.Builder, nt bool) vt.Result {
 
 var seqProp = vt.Register(&vt.Prop[Script]{Property: "C08", Name: "seq", Journal: true,
 	Gen: func(rt *rapid.T) Script { return genScript(rt, false) }, Run: run})
+var onePProp = vt.Register(&vt.Prop[Script]{Property: "C08", Name: "onep", Journal: true,
+	Gen: func(rt *rapid.T) Script { return genScript(rt, false) }, Run: run})
 var raceProp = vt.Register(&vt.Prop[Script]{Property: "C08", Name: "race", Journal: true,
 	Gen: func(rt *rapid.T) Script { return genScript(rt, true) }, Run: run})
 
 func TestC08_Seq(t *testing.T)  { theT = t; seqProp.Check(t) }
 func TestC08_Race(t *testing.T) { theT = t; raceProp.Check(t) }
+
+// TestC08_OneP runs the sequential generator on a single processor: a goroutine made runnable by the
+// running one (the POST exchange woken by CloseSSEStream) then waits behind whatever the running goroutine
+// starts next (the prompt resume), which makes "resume arrives before the closing exchange let go" the
+// common order instead of a rare one.
+func TestC08_OneP(t *testing.T) {
+	theT = t
+	defer runtime.GOMAXPROCS(runtime.GOMAXPROCS(1))
+	onePProp.Check(t)
+}
 func TestReplay(t *testing.T)   { theT = t; vt.Replay(t) }
 func TestRegress(t *testing.T)  { theT = t; vt.Regress(t, "C08") }
 func TestKnown(t *testing.T)    { theT = t; vt.Known(t, "C08") }
